@@ -12,8 +12,8 @@ func init() {
 	register(&PropDef{
 		ID:    "C37",
 		Pkgs:  []string{rhp},
-		Claim: "Decides the structural part of the walk only: ring.pick binary-searches with predicate hash(entry) >= requested hash and wraps to entry 0 when the search runs off the end; the ring's entry list is written only by newRing, sorted by hash with each entry's idx assigned in sorted order afterwards; a request-hash pick visits entries (start.idx + i) mod ringSize for i < ringSize, delegates exactly on READY/CONNECTING/IDLE, skips TRANSIENT_FAILURE and panics on anything else; a random-hash pick delegates only on READY, triggers exitIdle only for an IDLE endpoint while no connection has been requested (initially: some endpoint is CONNECTING) and marks the request before continuing, so at most one per pick; when a connection was requested and nothing is READY it fails with ErrNoSubConnAvailable; otherwise the pick falls back to the start entry's picker.",
-		NotDecided:  []string{"ring construction: size bounds, proportionality of entry counts, independence of update order (floating-point accumulation over a map iteration)", "quality of the hash"},
+		Claim: "Decides the structural part of the walk, and the upper size bound of the ring (entries are appended only while fewer than ceil(min(..., max_ring_size)) exist): ring.pick binary-searches with predicate hash(entry) >= requested hash and wraps to entry 0 when the search runs off the end; the ring's entry list is written only by newRing, sorted by hash with each entry's idx assigned in sorted order afterwards; a request-hash pick visits entries (start.idx + i) mod ringSize for i < ringSize, delegates exactly on READY/CONNECTING/IDLE, skips TRANSIENT_FAILURE and panics on anything else; a random-hash pick delegates only on READY, triggers exitIdle only for an IDLE endpoint while no connection has been requested (initially: some endpoint is CONNECTING) and marks the request before continuing, so at most one per pick; when a connection was requested and nothing is READY it fails with ErrNoSubConnAvailable; otherwise the pick falls back to the start entry's picker.",
+		NotDecided:  []string{"ring construction beyond the upper size bound: the lower bound min_ring_size, proportionality of entry counts, independence of update order (floating-point accumulation)", "quality of the hash"},
 		Assumptions: []string{"sort.Search / sort.Slice contracts"},
 		Technique:   "static analysis: expression-shape and dominating-guard checks on go/ssa, membership facts of switch arms, loop phi structure for the at-most-once flag, who-may-write",
 		Run:         c37,
@@ -203,6 +203,48 @@ func c37(c *Ctx) {
 		if u, ok := ex.Common().Value.(*ssa.UnOp); ok {
 			c.Expect(allocRoot(u) == allocRoot(randDel.Common().Value), ex, pf, "exitIdle-of-the-visited-entry", "exitIdle is called on a different endpoint")
 		}
+	})
+	c.Ob("ring-size-bound", "R5", "newRing: an entry is appended only while the ring has fewer than ceil(scale) entries, and scale is a min(..., max_ring_size): the ring never exceeds max_ring_size whatever the floating-point accumulation of the per-endpoint targets does", 2, func() {
+		nr := c.fn(rhp, "newRing")
+		var app *ssa.Call
+		for _, in := range instrsWhere(nr, func(in ssa.Instruction) bool {
+			call, ok := in.(*ssa.Call)
+			return ok && BuiltinCall("append")(&call.Call)
+		}) {
+			app = in.(*ssa.Call)
+		}
+		if !c.Expect(app != nil, nil, nr, "entries-appended", "no ring entry append found") {
+			return
+		}
+		capped := func(v ssa.Value) bool { // float64(maxRingSize) as one operand of math.Min
+			call, ok := v.(*ssa.Call)
+			if !ok || !CalleeX("math", "Min")(&call.Call) {
+				return false
+			}
+			isMax := func(x ssa.Value) bool {
+				if cv, ok := x.(*ssa.Convert); ok {
+					x = cv.X
+				}
+				return ParamV("maxRingSize")(x)
+			}
+			return isMax(call.Call.Args[0]) || isMax(call.Call.Args[1])
+		}
+		size := func(v ssa.Value) bool { // int(math.Ceil(scale))
+			if cv, ok := v.(*ssa.Convert); ok {
+				v = cv.X
+			}
+			call, ok := v.(*ssa.Call)
+			return ok && CalleeX("math", "Ceil")(&call.Call) && capped(call.Call.Args[0])
+		}
+		c.MustFact(app, "append-only-below-ring-size", Cmp(func(v ssa.Value) bool {
+			l := builtinCall(v, "len")
+			if l == nil {
+				return false
+			}
+			a, ok1 := l.Call.Args[0].(*ssa.UnOp)
+			b, ok2 := app.Call.Args[0].(*ssa.UnOp)
+			return l.Call.Args[0] == app.Call.Args[0] || ok1 && ok2 && a.X == b.X
+		}, token.LSS, size))
 	})
 	c.Ob("wrap-and-sorted", "R2", "ring.pick: sort.Search over len(items) with predicate items[i].hash >= h, index reset to 0 when it equals len(items); ring.next = (idx+1) mod len; items written only in newRing, sorted by hash, idx assigned after the sort in order", 9, func() {
 		rp := c.fn(rhp, "ring.pick")
